@@ -222,6 +222,71 @@ func c09Families(tier string) []explore.Family {
 		}
 	}})
 
+	// scaled: long strings and long arrays (lengths around powers of two): equal, differing only in the last
+	// element, one a strict prefix of the other; contains with the needle at the very end
+	lens := []int{7, 8, 9, 15, 16, 17, 31, 32, 33, 63, 64, 65, 70, 100, 127, 128, 129, 255, 256, 257, 1000, 4097, 65537}
+	fams = append(fams, explore.Family{Name: "scaled", Count: int64(len(lens) * 2), Run: func(i int64, r *explore.Rec) {
+		n, asArray := lens[int(i)/2], int(i)%2 == 1
+		mk := func(k int, last int) any {
+			if asArray {
+				a := make([]any, k)
+				for j := range a {
+					a[j] = j % 7
+				}
+				if k > 0 {
+					a[k-1] = last
+				}
+				return a
+			}
+			bs := []byte(strings.Repeat("abcdefg", k/7+1)[:k])
+			if k > 0 {
+				bs[k-1] = byte('a' + last)
+			}
+			return string(bs)
+		}
+		x, same, lastDiffers := mk(n, 1), mk(n, 1), mk(n, 2)
+		var prefix any
+		if asArray {
+			prefix = append([]any{}, x.([]any)[:n-1]...)
+		} else {
+			prefix = x.(string)[:n-1]
+		}
+		var needle any = 2
+		if !asArray {
+			needle = "c" // mk(n,2) ends in 'c'
+		}
+		check := func(a, b any, op string, want bool, what string) {
+			r.Eval()
+			r.Transition()
+			res, o := c09Rel(a, b, op)
+			exp := "F"
+			if want {
+				exp = "T"
+			}
+			if o.Panic != nil || o.Err != nil || res != exp {
+				r.Violation("rule:scaled:"+op, map[string]any{"length": n, "array": asArray, "operands": what, "op": op}, exp, trunc80(o.String()))
+			}
+		}
+		check(x, same, "==", true, "two equal values")
+		check(x, same, "!=", false, "two equal values")
+		check(x, lastDiffers, "==", false, "differ in the last element only")
+		check(lastDiffers, x, "!=", true, "differ in the last element only")
+		check(x, prefix, "==", false, "one is a strict prefix of the other")
+		check(prefix, x, "==", false, "one is a strict prefix of the other")
+		if !asArray {
+			check(x, lastDiffers, "<", true, "strings differing in the last character")
+			check(lastDiffers, x, "<", false, "strings differing in the last character")
+			check(prefix, x, "<", true, "a strict prefix is smaller")
+			check(x, prefix, ">", true, "a strict prefix is smaller")
+			check(x, x, "<=", true, "same string")
+		}
+		check(lastDiffers, needle, "contains", true, "needle is the last element / last character")
+		check(x, needle, "contains", asArray && n > 3 || !asArray && n > 3, "needle occurs earlier or not at all")
+		r.Trace()
+		r.Class(fmt.Sprintf("scaled/%v", asArray))
+		r.State("scaled")
+	}})
+
 	// boolean structure over the truthiness universe
 	tv := []struct {
 		name string
@@ -390,7 +455,7 @@ func init() {
 		ID:    "C09",
 		Level: "model_checking",
 		Rule: "all ordered pairs of the value universe (every kind; every numeric width of 0,1,3,200; boundary ints/floats; typed and generic arrays; maps) x the 7 operators, " +
-			"as variables and (where expressible) as literals; all and/or expressions with <=3 operators that are homogeneous chains or fully parenthesised trees over 8 truthiness values; " +
+			"as variables and (where expressible) as literals; strings and arrays of 7..65537 elements (23 lengths) that are equal, differ in the last element only or are strict prefixes, and contains with the needle at the very end; all and/or expressions with <=3 operators that are homogeneous chains or fully parenthesised trees over 8 truthiness values; " +
 			"class = (operator, kind pair, verdict); state = operand kind pair / boolean shape; transition = one operator evaluation; trace = one pair or expression validated on the implementation",
 		Assumptions: []string{
 			"reference rules are those of the statement; map==map, ordering of booleans/arrays/maps, and 'contains' on a scalar or with a non-string needle on a string are left unspecified (coherence laws and never-fails still checked)",
